@@ -120,7 +120,7 @@ def run_pairs(ctx, tag, pairs, shard=40, search=True, timeout=900,
                 try:
                     p.diff = numeric.find_difference(
                         p.p1, p.p2, p.tg, ctx.rng, special=p.special,
-                        models=2, assigns=4)
+                        models=2, assigns=4, max_cost=3e5)
                 except Exception:
                     p.diff = None
                 if p.diff is None:
